@@ -136,6 +136,9 @@ def install(R):
     # definition of NCombos (assumed; links functools.reduce(mul, lens) with the length of itertools.product)
     AX.append(("NCombos_def", z3.ForAll([c_], NCombos(c_) == ProdOf(lens_of(c_)), patterns=[NCombos(c_)])))
 
+    # stated precondition of every sweep (DESIGN section 5, C01): value lists are non-empty, so a sweep has >= 1 setting
+    AX.append(("assumed_nonempty_value_lists", z3.ForAll([c_], NCombos(c_) >= 1, patterns=[NCombos(c_)])))
+
     def nsettings(eng, fr, combos, cases):
         cv = eng.as_V(combos)
         nc = z3.If(eng.truth(combos, fr), NCombos(cv), 1)
